@@ -543,6 +543,28 @@ def directed_specs():
     ]
 
 
+def directed_property_specs():
+    """the situations the property names, not left to the random generator: two versions of one product sharing a
+    dependency (directly, two levels down, only one of them), a dependency shared with a survivor of another name,
+    versions whose names are prefixes of one another or hold regular-expression characters"""
+    return [
+        {"shape": "two-versions-share-dep", "products": [P("app", "1.0", [("num", None, False)], cur=False),
+                                                          P("app", "2.0", [("num", None, False)]), P("num", "1.4", [])]},
+        {"shape": "two-versions-share-deep-dep", "products": [P("app", "1.0", [("mid", None, False)], cur=False),
+                                                               P("app", "2.0", [("mid", None, False)]),
+                                                               P("mid", "1", [("num", None, False)]), P("num", "1.4", [])]},
+        {"shape": "two-versions-one-shares", "products": [P("app", "1.0", [("num", None, False), ("low", None, False)], cur=False),
+                                                           P("app", "2.0", [("num", None, False)]),
+                                                           P("num", "1.4", []), P("low", "1", [])]},
+        {"shape": "shared-with-other-name", "products": [P("app", "1.0", [("mid", None, False)]),
+                                                          P("tool", "1.0", [("num", None, False)]),
+                                                          P("mid", "1", [("num", None, False)]), P("num", "1.4", [])]},
+        {"shape": "version-prefix-and-plus", "products": [P("app", "1.0", [("num", "1.0+1", False)]),
+                                                           P("tool", "1.0", [("num", "1.0+1", False), ("lib", "1.0.1", False)]),
+                                                           P("num", "1.0+1", []), P("lib", "1.0", [], cur=False), P("lib", "1.0.1", [])]},
+    ]
+
+
 def setup_ctx(ctx):
     ctx.rule = ("random product graphs of 4-9 product names from harness/stackgen.py (chains, diamonds, shared sub-trees, dags, "
                 "two versions of one product, cycles and self-dependencies, unresolved dependencies, optional edges) materialised "
@@ -580,6 +602,7 @@ def run(ctx):
         c = {k: inp[k] for k in ("target", "recursive", "check", "force")}
         run_specs(ctx, [spec], nproc=1, cases_of=lambda s, c=c: [c], variant=variant)
     run_specs(ctx, directed_specs(), variant=variant)
+    run_specs(ctx, directed_property_specs(), variant=variant)
     n = ctx.size(80, 1000)
     specs = [stackgen.gen_spec(ctx.rng) for _ in range(n)]
     for s in specs[:2]:
